@@ -41,7 +41,7 @@ type c05OptListRow struct {
 	V []*int64 `parquet:"v,list"`
 }
 
-var c05Kinds = []string{"int32", "int64", "uint32", "uint64", "float", "double", "string2", "string16", "string", "doublelist", "optlist"}
+var c05Kinds = []string{"int32", "int64", "uint32", "uint64", "float", "double", "string2", "string16", "string", "doublelist", "optlist", "doubledict", "floatdict", "int64dict", "stringdict"}
 
 // concretisation tables: index 0 = the special symbol, 1..3 = increasing values; several
 // variants per kind, selected by the seed
@@ -79,6 +79,10 @@ func c05Write(kind string, variant int, pages [][]int) (data []byte, err error) 
 	}
 	if variant%2 == 1 {
 		opts = append(opts, parquet.DataPageVersion(1))
+	}
+	if strings.HasSuffix(kind, "dict") { // dictionary-encoded pages compute their bounds through the dictionary
+		opts = append(opts, parquet.DefaultEncoding(&parquet.RLEDictionary))
+		kind = strings.TrimSuffix(kind, "dict")
 	}
 	write := func(w interface {
 		ColumnWriters() []*parquet.ColumnWriter
@@ -230,6 +234,14 @@ func c05OrderKind(kind string) string {
 		return "double"
 	case "optlist":
 		return "int64"
+	case "doubledict":
+		return "double"
+	case "floatdict":
+		return "float"
+	case "int64dict":
+		return "int64"
+	case "stringdict":
+		return "bytes"
 	}
 	return kind
 }
